@@ -28,9 +28,12 @@ pub fn make_module() -> KMap {
 
         match ctx.instance_and_args(is_list, expected_error)? {
             (KValue::List(l), [value]) => {
-                let l = l.clone();
                 let value = value.clone();
-                for candidate in l.data().iter() {
+                // The comparisons are made on a copy of the entries taken under a single borrow:
+                // an overridden `==` can access the list, and no borrow should be held while
+                // calling back into the VM.
+                let entries = l.data().clone();
+                for candidate in entries.iter() {
                     match ctx
                         .vm
                         .run_binary_op(BinaryOp::Equal, value.clone(), candidate.clone())
@@ -381,7 +384,10 @@ pub fn make_module() -> KMap {
             (KValue::List(l), [f]) if f.is_callable() => {
                 let l = l.clone();
 
-                let sorted = sort_by_key(ctx.vm, l.data().as_ref(), f.clone())?;
+                // The key function is called with a copy of the entries rather than with the
+                // list borrowed, it can access the list.
+                let entries = l.data().clone();
+                let sorted = sort_by_key(ctx.vm, entries.as_ref(), f.clone())?;
 
                 for (target_value, (_key, source_value)) in
                     l.data_mut().iter_mut().zip(sorted.into_iter())
